@@ -479,8 +479,11 @@ class RawAlgorithmsMixIn:
             raise NotImplementedError
         (D,P) = y_data.shape[:2]
 
-        if isinstance(r, numpy.integer):
-            # numpy integer exponents take the same division-free path as python ints
+        if isinstance(r, numpy.ndarray) and r.ndim == 0:
+            r = r[()]
+
+        if isinstance(r, (numpy.integer, bool, numpy.bool_)):
+            # numpy integer (and boolean) exponents take the same division-free path as python ints
             r = int(r)
 
         if type(r) == int and r >= 0:
@@ -537,7 +540,10 @@ class RawAlgorithmsMixIn:
         # print 'xbar_data=',xbar_data
         # print 'ybar_data=',ybar_data
 
-        if isinstance(r, numpy.integer):
+        if isinstance(r, numpy.ndarray) and r.ndim == 0:
+            r = r[()]
+
+        if isinstance(r, (numpy.integer, bool, numpy.bool_)):
             r = int(r)
 
         if type(r) == int and r >= 0:
